@@ -235,7 +235,8 @@ def run_case(case):
     def impl_state(f, nref):
         return (tuple(tuple(map(float, e)) for e in f.entries), nref)
 
-    start = ((), 0)
+    f0 = make_filter(kind, rho0)
+    start = ((), 0, tuple(sorted((k, repr(v)) for k, v in vars(f0).items() if k not in ("problem", "params", "entries", "rho"))))
     seen = {start: ()}  # ordered impl state -> history reaching it
     canon = {((), 0)}
     frontier = collections.deque([start])
@@ -294,7 +295,10 @@ def run_case(case):
                 if len(viol) > 20:
                     break
             nref = nref_before + (0 if exp_acc or api != "update" else 1)
-            ns = (tuple(after), nref)
+            # implementation state = EVERY attribute of the filter object (so that hidden state added by a change, e.g. a cache,
+            # cannot be merged away), not only the fields the reference model knows about
+            hidden = tuple(sorted((k, repr(v)) for k, v in vars(f).items() if k not in ("problem", "params", "entries", "rho")))
+            ns = (tuple(after), nref, hidden)
             canon.add((tuple(sorted(after)), nref))
             if ns not in seen:
                 seen[ns] = hist + (ev,)
